@@ -441,7 +441,7 @@ func init() {
 	vc.Register(&vc.Check{
 		ID: "C10", Level: "model_checking", SingleProc: true,
 		Rule: "JT808 server: a well-behaved session V (register, auth, heartbeat, location, each awaited), a hostile client H and a third client opened after H, on the real server with README-pattern handlers that Parse and render every body. H plays every single piece of a ~900-piece menu (valid frames with lying package fields, every supported terminal and platform ID x both versions with empty / 1-byte / truncated / corrupted / extended bodies, the boundary bodies C03 found, half frames, bare delimiters, 2 KiB without delimiter, unknown IDs) with close or reset before, between and after its chunks, under ALL schedules with <=1 deviation (thorough: then again with 2 deviations and close after the piece, as far as the time cap allows - counter pieces_completed_at_bound_2), every ordered pair from a 40-piece sub-menu under the run-to-block schedule (thorough: with 1 deviation), every ordered pair of sub-package frames of one message ID whose total/number fields disagree (totals and numbers from {1,2,5,65535} / {1,2,4,65535}) through the server, and EVERY sequence of 1..2 (one ID: 1..3; thorough: 1..3 for both) sub-package frames over 2 IDs x totals {0,1,2,3,5,65535} x numbers {0..6,65535} on the real reassembler, " +
-			"plus H presenting V's key. Attachment server: connection.run on scripted connections: every prefix (EOF and reset at every chunk boundary, including connect-and-close) of well-formed sessions of all five dialects, control frames and chunk headers with adversarial names / offsets / lengths, sessions of 1 and 4 files whose k-th reply write (k=1..4) and all later ones fail, frames one per read and all in one read, default and custom file handler. Oracle: no panic anywhere, V receives exactly its reference replies, the later client is served. Non-trivial = H sends at least one chunk",
+			"plus H presenting V's key. Attachment server: connection.run on scripted connections: every prefix (EOF and reset at every chunk boundary, including connect-and-close) of well-formed sessions of all five dialects, control frames and chunk headers with adversarial names / offsets / lengths, a chunk header cut at every byte, sessions of 1 and 4 files whose k-th reply write (k=1..4) and all later ones fail, frames one per read and all in one read, default and custom file handler. Oracle: no panic anywhere, V receives exactly its reference replies, the later client is served. Non-trivial = H sends at least one chunk",
 		Assumptions: []string{"memory exhaustion by an endless delimiter-free stream is a resource bound, not a reachable-state property, and is not claimed"},
 		Run:         c10Run,
 		Drivers: map[string]func(json.RawMessage) string{
@@ -676,7 +676,9 @@ func c10Attachment(ctx *vc.Ctx, rep *vc.Report, idx *int64) {
 		if !ctx.Mine(*idx) {
 			return
 		}
+		done := vc.SetCurrent("att", c, fmt.Sprintf("attachment session dialect %d, %d chunks, coalesce=%v failFrom=%d", c.Dialect, len(c.Chunks), c.Coalesce, c.FailFrom))
 		sig, diag := attEval(c)
+		done()
 		rep.Evaluations++
 		rep.States++ // one scripted session = one path through the connection state machine
 		rep.Transitions += int64(len(c.Chunks) + 1)
@@ -704,6 +706,19 @@ func c10Attachment(ctx *vc.Ctx, rep *vc.Report, idx *int64) {
 					half := h[:len(h)/4*2]
 					try(attCase{Dialect: di, Chunks: append(append([]string(nil), good[:cut]...), half), Reset: reset, Default: def})
 				}
+			}
+			// a chunk header cut at EVERY byte (the peer writes part of a header, pauses and hangs up)
+			for pos, h := range good {
+				if !strings.HasPrefix(h, "30316364") {
+					continue
+				}
+				raw := unhx(h)
+				for cut := 1; cut < len(raw) && cut <= 80; cut++ {
+					for _, reset := range []bool{false, true} {
+						try(attCase{Dialect: di, Chunks: append(append([]string(nil), good[:pos]...), hx2(raw[:cut])), Reset: reset, Default: def})
+					}
+				}
+				break
 			}
 			// the peer stops reading: the k-th reply write and every later one fail, frames one per read and all in one read
 			// (several control frames buffered behind the failing write), sessions with 1 and with 4 files
